@@ -12,7 +12,7 @@ import (
 
 func init() {
 	simrt.Register(&simrt.Prop{ID: "C10", Gen: genC10, Exec: execL2Seq})
-	simrt.Register(&simrt.Prop{ID: "C12", Gen: genC12, Exec: execL2Seq})
+	simrt.Register(&simrt.Prop{ID: "C12", Gen: genC12, Exec: execC12})
 	simrt.Register(&simrt.Prop{ID: "C13", Gen: genC13, Exec: execL2Seq})
 }
 
@@ -190,6 +190,7 @@ func (h *l2) checkTop(I []int64) {
 	}
 	if len(opt.RowIDs) == 0 {
 		f.RecalculateCache()
+		c12Recalculated(h)
 	}
 	pairs, err := f.top(opt)
 	if err != nil {
@@ -215,7 +216,34 @@ func (h *l2) checkTop(I []int64) {
 		h.c.Probe("topn-ids-checked")
 		return
 	}
-	// TopN(n) without ids: judged only when every row ever written fits in the cache.
+	// TopN(n) without ids and without a cut-off: every row the rank cache must hold (written
+	// since a recalculation found room for all non-empty rows) is reported, with its count.
+	if st := c12State[h]; st != nil && f.CacheType == CacheTypeRanked && src == nil && opt.N == 0 && len(h.rowCounts()) <= int(f.CacheSize) {
+		got := map[uint64]uint64{}
+		for _, p := range pairs {
+			got[p.ID] = p.Count
+		}
+		var rows []uint64
+		for r := range st.guar {
+			rows = append(rows, r)
+		}
+		sort.Slice(rows, func(i, j int) bool { return rows[i] < rows[j] })
+		for _, r := range rows {
+			want := h.countIn(r, nil)
+			if want == 0 || want < opt.MinThreshold {
+				continue
+			}
+			if n, ok := got[r]; !ok || n != want {
+				h.fail("topn-missing", "%s: row %d (count %d) was written after a recalculation that had room for every non-empty row (cache size %d, %d non-empty rows) and is reported as %d (present=%v)", desc, r, want, f.CacheSize, len(h.rowCounts()), n, ok)
+				return
+			}
+		}
+		h.c.Probe("topn-guaranteed-rows-checked")
+		if st.wasFull {
+			h.c.Probe("topn-guaranteed-rows-checked-after-overfull")
+		}
+	}
+	// TopN(n) without ids: the full answer is judged only when every row ever written fits in the cache.
 	if f.CacheType == CacheTypeNone || src != nil || h.c.Plan.Knob("rowsfit", 0) == 0 {
 		return
 	}
@@ -255,8 +283,105 @@ func (h *l2) checkTop(I []int64) {
 	h.c.Probe("topn-n-checked")
 }
 
+// c12Track follows which rows the rank cache must hold: after a recalculation that found
+// room for every non-empty row the admission threshold is 1, so every row whose count changes
+// from then on (while the rows still fit) is admitted; rows evicted or refused earlier and not
+// written since are not judged.
+type c12Track struct {
+	wasFull bool // a recalculation has seen more non-empty rows than the cache holds
+	roomy   bool
+	guar    map[uint64]bool
+	prev    map[uint64]uint64
+}
+
+var c12State = map[*l2]*c12Track{}
+
+func (h *l2) rowCounts() map[uint64]uint64 {
+	m := map[uint64]uint64{}
+	for r := range h.bits {
+		if n := h.countIn(r, nil); n > 0 {
+			m[r] = n
+		}
+	}
+	return m
+}
+
+func c12AfterWrite(h *l2, op simrt.Op) {
+	st := c12State[h]
+	if st == nil {
+		return
+	}
+	counts := h.rowCounts()
+	switch {
+	case op.K == "restore":
+		st.roomy, st.guar = false, map[uint64]bool{}
+	case len(counts) > int(h.f.CacheSize):
+		st.roomy, st.guar = false, map[uint64]bool{}
+	case st.roomy:
+		for r, n := range counts {
+			if st.prev[r] != n {
+				st.guar[r] = true
+			}
+		}
+		for r := range st.guar {
+			if counts[r] == 0 {
+				delete(st.guar, r)
+			}
+		}
+	}
+	st.prev = counts
+}
+
+// c12Recalculated is called right after a RecalculateCache.
+func c12Recalculated(h *l2) {
+	st := c12State[h]
+	if st == nil {
+		return
+	}
+	if len(h.rowCounts()) <= int(h.f.CacheSize) {
+		if st.wasFull && !st.roomy {
+			h.c.Probe("rank-cache-roomy-again-after-overfull")
+		}
+		st.roomy = true
+	} else {
+		st.wasFull = true
+	}
+}
+
+func execC12(c *simrt.Ctx) {
+	var h *l2
+	ok := c.Do("setup", func() {
+		h = newL2(c)
+		c.State = h
+		h.hooks.afterWrite = c12AfterWrite
+		c12State[h] = &c12Track{guar: map[uint64]bool{}, prev: map[uint64]uint64{}}
+		if err := h.open(); err != nil {
+			c.Fail("open-error", "%v", err)
+		}
+	})
+	defer delete(c12State, h)
+	if ok && !c.Failed() {
+		c.Do("c0", func() {
+			for _, op := range c.Plan.Clients[0] {
+				if c.Failed() {
+					return
+				}
+				h.apply(op)
+				if op.K == "recalc" {
+					c12Recalculated(h)
+				}
+				c.OpDone()
+			}
+		})
+	}
+	if !c.Failed() {
+		c.Do("teardown", func() { h.close() })
+	}
+	c.Do("shutdown", func() { h.shutdown() })
+}
+
 func genC12(r *simrt.Rand, tier string) *simrt.Plan {
-	kind := l2Set
+	kind := simrt.Pick(r, l2Set, l2Set, l2Set, l2Mutex)
 	g := newL2Gen(r, kind)
 	g.enabled = map[string]bool{}
 	for _, k := range []string{"set", "clear", "setrow", "clearrow", "import", "iroaring"} {
@@ -279,6 +404,30 @@ func genC12(r *simrt.Rand, tier string) *simrt.Plan {
 	}
 	n := 5 + r.Intn(35)
 	var ops []simrt.Op
+	if kind == l2Set && r.Bool(0.15) {
+		// shrink scenario: more rows than a small ranked cache holds, recalculated while
+		// over-full, then emptied until they fit again, recalculated, then small writes
+		p.Knobs["cachetype"], p.Knobs["cachesize"] = 0, int64(simrt.Pick(r, 1, 3))
+		delete(p.Knobs, "rowsfit")
+		nrows := int(p.Knobs["cachesize"]) + 1 + r.Intn(2)
+		for i := 0; i < nrows; i++ {
+			I := []int64{0}
+			for k := 0; k < 2+i+r.Intn(2); k++ {
+				I = append(I, int64(i), int64(k*3+i))
+			}
+			ops = append(ops, simrt.Op{K: "import", I: I})
+		}
+		ops = append(ops, simrt.Op{K: "recalc"})
+		for i := 0; i < nrows-int(p.Knobs["cachesize"]); i++ {
+			ops = append(ops, simrt.Op{K: "clearrow", I: []int64{int64(r.Intn(nrows))}}, simrt.Op{K: "clearrow", I: []int64{int64(i)}})
+		}
+		ops = append(ops, simrt.Op{K: "recalc"})
+		for i := 0; i < 1+r.Intn(3); i++ {
+			ops = append(ops, simrt.Op{K: simrt.Pick(r, "set", "set", "clear"), I: []int64{int64(r.Intn(nrows)), int64(r.Intn(12))}})
+		}
+		ops = append(ops, simrt.Op{K: "rtop", I: []int64{0, 0, -1}})
+		n = r.Intn(8)
+	}
 	for i := 0; i < n; i++ {
 		switch x := r.Intn(10); {
 		case x < 5:
